@@ -22,18 +22,20 @@ RULE = ("(a) `bs` (buffer_size_const) vs the Lean model over G-opt x format cata
         "default digits) and every op for which the model predicts a slice-index panic is replayed on the implementation; (c) the same ops with "
         "shorter buffers (0, 1, 2, bound-1, bound-2, random) must end `ok` inside the buffer or `panic`, never `fault`/`dirty`. "
         "non-trivial = `ok` result of a non-default option set or a panic; distinct = distinct ops")
-TECHNIQUE = ("Lean 4 theorems on the buffer-faithful model (high-water mark < buffer_size_const outside explicitly excluded option regions, with "
-             "decided witnesses inside them; short buffers give PANIC or an in-buffer result, never FAULT) + correspondence incl. guard pages")
-LEVEL_TEXT = ("Proved in Lean (Props/C09.lean) on the buffer-faithful model of write_float and both decimal back-ends (algorithm.rs, compact.rs): "
-              "float_bound - for every digit list the generators can produce, every scientific exponent of a finite float, valid format and options in "
-              "SafeOpts, a buffer of buffer_size_const bytes suffices: the call returns, writes at most buffer_size_const bytes and never touches an index "
-              ">= buffer_size_const (the slice need of every layout function is characterised exactly: panic <-> len < need). Outside SafeOpts the statement "
-              "is false (float_bound_full_false): three decided witnesses (digit-writer slice demand after many leading zeros; exponent-writer slice demand "
-              "after min-digit padding; sign + '.0' at a large positive break, also compact) replay as panics on the implementation. short_buffer_safe - any "
-              "buffer: PANIC or an in-buffer result, never FAULT. int_bound - FORMATTED_SIZE(_DECIMAL) of Gen.Sizes holds sign + numeral of every integer "
-              "type in every radix (kernel-evaluated table), except the '+' of unsigned types (int_plus_sign_exception).")
-LEVEL_NOTE = ("Trusted: Lean kernel; rustc; harness (guard pages observe, do not prove, absence of stray accesses). Non-decimal float writers: "
-              "correspondence only.")
+TECHNIQUE = ("Lean 4 theorems on the buffer-faithful model (high-water mark < buffer_size_const for every valid option set; short buffers give PANIC or an in-buffer result, never FAULT) + correspondence incl. guard pages")
+LEVEL_TEXT = ("Proved in Lean (Props/C09.lean) on the buffer-faithful model of write_float and both decimal back-ends (algorithm.rs, compact.rs), for the "
+              "buffer_size_const of the current tree (repaired by /repo fb7040b / 2d9b865; tied by the `bs` op and the literal snapshot): float_bound - for "
+              "every digit list the generators can produce, every scientific exponent of a finite float, every valid decimal format and all valid options "
+              "(no exclusion), a buffer of buffer_size_const bytes suffices: the call returns, writes at most buffer_size_const bytes and never touches an "
+              "index >= buffer_size_const (the slice need of every layout function is characterised exactly: panic <-> len < need). short_buffer_safe - any "
+              "buffer: PANIC or an in-buffer result, never FAULT. int_bound - the integer buffer_size_const holds sign (incl. a required '+' of unsigned "
+              "types) + numeral of every integer type in every radix (kernel-evaluated table); writeInt_size_suffices_compact transfers C03's writer "
+              "correctness to that size. History kept as theorems about the formulas before the repairs (float_bound_before_fix under SafeOpts, its full "
+              "statement refuted by three decided witnesses float_bound_before_fix_full_false, int_plus_sign_exception_before_fix). Generic radices: "
+              "Props/C07 radix_write_total (the radix.rs model never panics for any option set given the scratch buffer, panic iff bytes shorter than the "
+              "highest index touched). Power-of-two writers: correspondence only.")
+LEVEL_NOTE = ("Trusted: Lean kernel; rustc; harness (guard pages observe, do not prove, absence of stray accesses). The bound for non-decimal float "
+              "writers (that buffer_size_const covers the highest index the radix.rs / binary.rs / hex.rs writers touch) is correspondence only.")
 
 BIGBUF = 4000
 # `dbg` = release-like build with debug assertions (harness/Cargo.toml): only the small stream `float-sign-dbg` runs there
